@@ -312,7 +312,7 @@ def with_sanitizers(focus):
 
 # ---------------------------------------------------------------------- C02
 
-C02_FAMILIES = ["tails", "grid", "withlang", "tokens", "mutations"]
+C02_FAMILIES = ["tails", "grid", "withlang", "tokens", "mutations", "bytes12"]
 C02_PHASES = ["parse", "display", "debug", "encode", "traverse", "clone-eq", "drop"]
 BOMB_FAMILIES = ["nest", "nest-noname", "nest-multi", "set-width", "coll-set", "attr-count", "group-count", "member-count",
                  "value-len", "name-len", "unterminated", "endcoll-flood", "member-flood", "addl-no-attr"]
@@ -417,7 +417,7 @@ def c02_steps(ctx):
     thorough = ctx["tier"] == "thorough"
     jobs = []
     for fam in C02_FAMILIES:
-        n = 16 if (thorough or fam in ("tails", "grid", "mutations")) else 4
+        n = 16 if (thorough or fam in ("tails", "grid", "mutations", "bytes12")) else 4
         jobs += [(fam, i, n) for i in range(n)]
     # sanitizer layer, started first and joined at the end: quick = one Miri shard over grid / with-language / tokens,
     # thorough = 16 Miri shards (+ mutations) and an ASan build over all families
@@ -483,7 +483,7 @@ def c02_steps(ctx):
         "processes whose abort handler attributes a signal to (case, phase). Families: (a) every tail of <=2 bytes after a valid header, 3-byte "
         "tails (quick: 256x256x16 third bytes, thorough: all 2^24); (b) tag 0x00-0xff x value length {0..16,0xffff} x 6 fills x {framed,truncated}, "
         "also straight into IppValue::parse; (c) with-language outer length 0..12 x inner length pairs; (d) all token sequences <=4 (quick) / <=5 "
-        "(thorough) over the 16-token alphabet; (e) grammar-aware mutations of G1/G2 messages; (f) structural bombs (14 families, sizes up to "
+        "(thorough) over the 16-token alphabet; (e) grammar-aware mutations of G1/G2 messages; (e2) every tag x every 1-byte body and four 2-byte body shapes (also into IppValue::parse); (f) structural bombs (14 families, sizes up to "
         "1 MiB), one (family,size,phase) per process. evaluations = inputs run; distinct_nontrivial = distinct inputs (hash) that parsed to a result "
         "and went through the inspection phases.")
     head["coverage"]["bomb_boundaries"] = boundary
